@@ -453,7 +453,7 @@ func bitBudget(c *Ctx, p *Program) {
 	}
 	for _, r := range rows {
 		if !r.used {
-			c.Fail("stale-table", "bitbudget:"+r.typ+":"+r.loc, "", "reviewed line no longer matches anything (remove it): "+r.typ+" "+r.loc)
+			c.Stale("bitbudget:"+r.typ+":"+r.loc)
 		}
 	}
 	c.Floor("B1-bit-budget", b.nObl, 15)
